@@ -86,7 +86,8 @@ class Player:
                 v["zz_not_a_name"] = 0.0
             elif op == "setall":
                 vec = [self._val(v, i, x, jitter) if i < v.nval else tok2f(x) for i, x in enumerate(act[2])]
-                v.values = np.array(vec, dtype=float) if (len(vec) + o) % 2 else vec
+                self.nset = getattr(self, "nset", 0) + 1
+                v.values = self._container(vec, self.nset)
             elif op == "reset":
                 v.reset()
             elif op == "clone":
@@ -98,6 +99,30 @@ class Player:
             return "ok"
         except ValueError:
             return "err"
+
+    @staticmethod
+    def _container(vec, k):
+        """the same numbers in the containers a whole-vector assignment accepts (logical row-major order for 2-D ones)"""
+        import pandas as pd
+        a = np.array(vec, dtype=float)
+        kind = k % 7
+        if kind == 0:
+            return list(vec)
+        if kind == 1:
+            return a
+        if kind == 2:
+            return tuple(vec)
+        if kind == 3:
+            return pd.Series(a, index=pd.RangeIndex(10, 10 + len(a)))
+        if len(a) >= 4 and len(a) % 2 == 0:
+            if kind == 4:
+                return np.asfortranarray(a.reshape(2, -1))          # Fortran-ordered 2-D
+            if kind == 5:
+                return pd.DataFrame(a.reshape(2, -1))                # homogeneous frame (F-contiguous values)
+            return a.reshape(-1, 2).T.copy().T                       # transposed view
+        big = np.zeros(2 * len(a) + 1)
+        big[1::2] = a
+        return big[1::2]                                             # strided view
 
     @staticmethod
     def _val(v, i, tok, jitter):
@@ -224,6 +249,10 @@ def _rand_history(rng, Vector, maxsteps):
             vec = [int(x) for x in rng.integers(-5, 6, size=k)]
             if k and rng.random() < 0.15:
                 vec[int(rng.integers(0, k))] = NAN
+            if k and rng.random() < 0.2:
+                vec[int(rng.integers(0, k))] = PINF
+            if k and rng.random() < 0.2:
+                vec[int(rng.integers(0, k))] = NINF
             act = ["setall", o, vec, 0]
         elif r < 0.75:
             act = ["reset", o, 0, 0]
